@@ -267,10 +267,13 @@ impl Property for C22 {
             if !rc.want_sub(sub) {
                 continue;
             }
-            let Some(m) = f.apply(&cur_archive) else { continue };
             out.evals += 1;
             out.fault(f.kind());
             out.keys.push(hash_str(&format!("{tag}|{}|{}", g.title, f.describe())));
+            let Some(m) = f.apply(&cur_archive) else {
+                out.probe("damaged-archive-fault-was-a-no-op");
+                continue;
+            };
             let res = sdk::guarded(|| Builder::from_shared_context(&ctx).with_archive(std::io::Cursor::new(m.clone())).map_err(|e| err_kind(&e)));
             match res {
                 Err(p) => out.violate(sub, &format!("panic:{}", p.split('|').next().unwrap_or("?")), "G1 no panic", json!({"scenario": tag, "fault": f.describe(), "panic": p})),
@@ -287,8 +290,12 @@ impl Property for C22 {
                 },
             }
         }
+        // archives are signed with a fresh ephemeral key and carry a metadata date, so their bytes -
+        // and with them the effect of a stored-byte fault - differ from run to run: the faulted
+        // variant is kept out of the determinism digest
+        let stable: Vec<(&String, &u64)> = out.probes.iter().filter(|(k, _)| !k.starts_with("damaged-archive")).collect();
         out.sample = Some(json!({"scenario": tag, "archive_len": cur_archive.len(), "probes": out.probes}));
-        out.digest = hash_str(&format!("{tag}|{:?}", out.probes));
+        out.digest = hash_str(&format!("{tag}|{stable:?}"));
         out
     }
 }
